@@ -329,6 +329,9 @@ def _volume_case(desc, ctx, rng):
         S0 = volconn.script(P0, ref0)
         for name, fn in S0:
             ctx.call(name, fn, m, monitor="prequery", abort=False)
+        if desc["seed"] % 2 == 0:
+            ctx.cls("prequery:boundary_connectivity")
+            ctx.call("enable_boundary_connectivity", m.enable_boundary_connectivity, monitor="prequery", abort=False)
     snap0 = _snap_volume(m)
     faces0 = [tri(*f) for f in snap0["F"]]
     # expected counts
@@ -400,6 +403,27 @@ def _volume_case(desc, ctx, rng):
             if ok:
                 Tn[name] = ans
         volconn.verify(ctx, Tn, refn, now["F"], now["E"], Pn, True, monitor="input_conn")
+        # the boundary surface answered by the input object describes its current cells (it may have been extracted before the block)
+        # first as it is (either "not enabled" = None, or current), then after enabling it again
+        for stage in ("as_left_by_the_block", "enabled_again"):
+            if stage == "enabled_again":
+                ok, _ = ctx.call("enable_boundary_connectivity", m.enable_boundary_connectivity, monitor="input_conn", abort=False)
+                if not ok:
+                    break
+            bm = m.boundary_mesh
+            if bm is None and stage == "as_left_by_the_block":
+                continue
+            ctx.obs("input_conn", "boundary_mesh")
+            try:
+                b2m = {int(k): int(v) for k, v in m.boundary_connectivity.b2m_vertex.items()}
+                got = sorted(tri(*[b2m[int(v)] for v in f]) for f in bm.faces)
+            except Exception as e:
+                got = None
+            if got != sorted(refn.border_faces):
+                ctx.violation("input_conn", "boundary_mesh", "boundary_surface_does_not_describe_current_cells",
+                              "after the editing block the boundary surface answered by the mesh object that was passed in is not the border of its current cells",
+                              n=None if got is None else len(got), want=len(refn.border_faces), ops=site, stage=stage)
+                break
     # new vertices
     scale = float(np.ptp(np.asarray(V0, float))) + 1e-300
     base = {"V": np.asarray(V0, float), "E": sorted(ref0.edges), "F": [list(t) for t in ref0.faces], "C": C0}
